@@ -104,6 +104,10 @@ def cases(ctx):
     for j in range((6 if quick else 40)):
         yield {'salt': rng.randint(0, 10 ** 9), 'rows': rng.choice([12, 30, 50]), 'enc': rng.choice(['cp500', 'cp037']), 'blocked': False,
                'entry': 'cli_run', 'shape': 'space_heavy'}
+    # rows whose record is longer than one 1012-byte payload and ends exactly on a payload boundary of the blocked file
+    for j in range((2 if quick else 12)):
+        yield {'salt': rng.randint(0, 10 ** 9), 'rows': rng.choice([3, 5, 8]), 'enc': rng.choice(CODECS), 'blocked': True,
+               'entry': ('function', 'cli_run')[j % 2], 'shape': 'block_aligned'}
     for j in range((1200 if quick else 20000) // ctx.nshards + 1):
         yield {'salt': rng.randint(0, 10 ** 9), 'rows': rng.choice([1, 2, 5, 12, 50] + ([] if quick else [150, 400])),
                'enc': rng.choice(CODECS), 'blocked': rng.random() < 0.5, 'entry': rng.choice(['function', 'cli_run']),
@@ -134,6 +138,16 @@ def build_table(ctx, case):
             rows.append(row)
             ctx_boundary = True
             continue
+        if shape == 'block_aligned':
+            carriers = {'DE%s' % b for b, c in ctx.config['bit_config'].items() if c.get('field_processor') == 'PDS'}
+            p = sorted(rng.sample(pds_cols, 3))
+            use = ['MTI'] + p + rng.sample([c for c in de_cols if c not in carriers], rng.randint(0, 4))
+            row = {c: cell(ctx, rng, c, enc) for c in use}
+            for c, n in zip(p, (400, 400, 300)):
+                row[c] = printable(rng, enc, n, 'alnum')
+            row['_adjust'] = p
+            rows.append(row)
+            continue
         if shape in ('all_columns', 'space_heavy'):
             use = ['MTI'] + de_cols + (pds_cols if rng.random() < 0.5 else [])
         elif shape == 'pds_only':
@@ -154,7 +168,58 @@ def build_table(ctx, case):
         rows.append(row)
     header = [c for c in cols if any(c in r for r in rows)]
     rng.shuffle(header)
+    if shape == 'block_aligned':
+        align(ctx, rng, enc, header, rows)
     return header, rows
+
+
+def record_lengths(ctx, header, rows, enc):
+    ipm = io.BytesIO()
+    ctx.t_in.mci_csv_to_ipm(in_csv=io.StringIO(to_csv_text(header, rows), newline=''), out_ipm=ipm, config=ctx.config,
+                            out_encoding=enc, no1014blocking=True)
+    data, out, p = ipm.getvalue(), [], 0
+    while p + 4 <= len(data):
+        n = int.from_bytes(data[p:p + 4], 'big')
+        if n == 0:
+            break
+        out.append(n)
+        p += 4 + n
+    return out
+
+
+def align(ctx, rng, enc, header, rows):
+    """Lengthen or shorten PDS cells (one character of a cell is one byte of the record) until every second record ends
+    exactly where a 1012-byte payload ends.  The unblocked writer is only used as a ruler here."""
+    adjust = [row.pop('_adjust') for row in rows]
+    try:
+        lens = record_lengths(ctx, header, rows, enc)
+    except Exception:      # noqa - the judged run will report it
+        return
+    if len(lens) != len(rows):
+        return
+    off = 0
+    for t, row in enumerate(rows):
+        p = adjust[t]
+        end = off + 4 + lens[t]
+        if t % 2 == 1 or t == len(rows) - 1:
+            need = (-end) % 1012                       # grow by this much ...
+            third = len(row[p[2]])
+            if third + need > 992:
+                need -= 1012                           # ... or shrink instead
+            if 1 <= third + need <= 992:
+                row[p[2]] = (row[p[2]] + printable(rng, enc, max(need, 0), 'alnum'))[:third + need]
+                end += need
+        off = end
+    try:
+        lens = record_lengths(ctx, header, rows, enc)
+    except Exception:      # noqa
+        return
+    ends, off = [], 0
+    for n in lens:
+        off += 4 + n
+        ends.append((n, off))
+    if any(n > 1012 and o % 1012 == 0 for n, o in ends):
+        ctx.count('tables with a record over 1012 bytes ending exactly on a payload boundary')
 
 
 def to_csv_text(header, rows):
@@ -256,6 +321,8 @@ def require(m):
     reasons = []
     if set(m['classes'].get('entries', ())) != {'function', 'cli_run'}:
         reasons.append('both entry points not driven')
+    if not m['counters'].get('tables with a record over 1012 bytes ending exactly on a payload boundary') and not m['violations']:
+        reasons.append('no blocked table with a long record ending exactly on a payload boundary')
     if not m['counters'].get('unblocked EBCDIC files made mostly of spaces through cli_run') and not m['violations']:
         reasons.append('space-heavy unblocked EBCDIC files never run through cli_run')
     if len(set(m['classes'].get('codecs/blocking', ()))) < 6:
